@@ -1,4 +1,4 @@
-package checks
+package arith
 
 import (
 	"encoding/json"
